@@ -51,7 +51,7 @@ def _new_rules(rng, k0):
 def instantiations(tier, seed):
     rng = random.Random(seed * 1511 + 3)
     out = []
-    cfgs = cfg.cfg_family(tier, seed, n_quick=6, n_thorough=300)
+    cfgs = cfg.cfg_family(tier, seed, n_quick=24, n_thorough=300)
     for k, c in enumerate(cfgs):
         c = F.symbolize(c)
         nr = _new_rules(rng, k)
